@@ -819,7 +819,7 @@ def e2e_cases(ctx):
     rng = ctx.rng('e2e')
     cases = []
     sizes = [0, 1, 2, 3, 5, 6, 7, 9, 10, 12, 17, 23]
-    for kind in ('upload-path', 'upload-seekable', 'upload-seekable-offset', 'upload-nonseekable',
+    for kind in ('upload-path', 'upload-seekable', 'upload-seekable-offset', 'upload-seekable-short', 'upload-nonseekable',
                  'download-path', 'download-seekable', 'download-nonseekable', 'copy'):
         for size in sizes:
             reps = 150 if ctx.thorough() else 8
@@ -892,6 +892,9 @@ def run_e2e(case, tmpdir, want_bodies=False):
                         src = path
                     elif kind == 'upload-seekable':
                         src = io.BytesIO(payload)
+                    elif kind == 'upload-seekable-short':
+                        from harness.fakes3 import ShortReadBytesIO
+                        src = ShortReadBytesIO(payload, cap=1 + case['offset'] % 3)
                     elif kind == 'upload-seekable-offset':
                         k = case['offset']
                         src = io.BytesIO(data[size:size + k] + payload)
@@ -986,7 +989,9 @@ def check_e2e(ctx, tmpdir):
                 lines.append(' '.join(['runq', zeros or '-', hx(start), hx(csize), hx(full), '0', hx(thr)] + b.ops))
                 expect.append(('values-part', None, c))
                 pred_lines.append(len(lines) - 1)
-            if not c.get('threads'):
+            # (a short-reading source splits the reports of the single-request path, where the body
+            # reads the user's stream directly: sums and bounds are judged above, not the exact values)
+            if not c.get('threads') and c['kind'] != 'upload-seekable-short':
                 owners.append((c, pred_lines, r['vals']))
     if lines:
         outs = common.run_model('chunk', lines)
@@ -1285,10 +1290,42 @@ def run(ctx):
             check_lifecycle(ctx)
             check_e2e(ctx, tmpdir)
             check_botocore(ctx, tmpdir)
+            check_interleaved(ctx)
         if ctx.broken is not None:
             search_after_break(ctx, tmpdir)
     finally:
         shutil.rmtree(tmpdir, ignore_errors=True)
+
+
+def interleaved_specs(ctx):
+    """'every interleaving of parts': multipart uploads / copies / ranged downloads whose parts run on
+    2-3 request threads under the cooperative scheduler, the aggregator threshold scaled to a few
+    bytes, on_progress a scheduling point (a user callback takes time)."""
+    from harness.props import sysrun
+    rng = ctx.rng('interleaved')
+    out = []
+    kinds = [dict(kind='upload', src='path', size=12), dict(kind='upload', src='seekable', size=11),
+             dict(kind='upload', src='nonseekable', size=10), dict(kind='copy', size=12),
+             dict(kind='download', dst='path', size=12), dict(kind='download', dst='nonseekable', size=11),
+             dict(kind='upload', src='path', size=2)]
+    n = 160 if ctx.thorough() else 42
+    for i in range(n):
+        ts = dict(kinds[i % len(kinds)])
+        cfg = dict(max_request_concurrency=rng.choice([2, 3]), multipart_chunksize=rng.choice([3, 4]), multipart_threshold=4,
+                   io_chunksize=2)
+        out.append(dict(transfers=[ts], cfg=cfg, agg_threshold=rng.choice([2, 3, 5]), progress_yield=True,
+                        chooser={'kind': ['random', 'pct', 'random'][i % 3], 'seed': rng.randrange(1 << 30), 'depth': 5}))
+    return out
+
+
+def interleaved_mons():
+    from harness.sched import monitors as M
+    return [M.m_terminates, M.m_progress_sum]
+
+
+def check_interleaved(ctx):
+    from harness.props import sysrun
+    sysrun.sub_runs(ctx, interleaved_specs(ctx), interleaved_mons())
 
 
 def search_after_break(ctx, tmpdir):
@@ -1352,6 +1389,9 @@ def search_after_break(ctx, tmpdir):
 def replay(ctx, data):
     case = data.get('case')
     comp = data.get('component')
+    if isinstance(case, dict) and 'transfers' in case:
+        from harness.props import sysrun
+        return sysrun.replay_spec(ctx, data, interleaved_mons())
     tmpdir = tempfile.mkdtemp(prefix='verif-c09-')
     try:
         if isinstance(case, dict) and comp == 'chunk' and data.get('kind') != 'correspondence':
